@@ -289,9 +289,23 @@ class _Linalg:
         assert ord is None or ord == 2
         x = wrap(x)
         s = _scalar(_np.sum(x * x, axis=axis, keepdims=keepdims))
-        ue = ctx().unit_exprs
-        if ue and isinstance(s, SR) and s.c is None and simp(s.e).get_id() in ue:
-            return exact(1)
+        c = ctx()
+        ue = c.unit_exprs
+        if isinstance(s, SR) and s.c is None:
+            sid = simp(s.e)
+            if sid.get_id() in ue:
+                return exact(1)
+            if x.shape == (4,) and ue and sid.get_id() not in c.__dict__.setdefault("_not_unit", {}):
+                # quaternion normalisation: try to *prove* |x|^2 = 1 from the facts known so far (unit quaternions multiply to unit quaternions)
+                from . import smt as _smt
+                from .rel import cone_defs
+                small = [a for a in c.assumptions]
+                if _smt.entails(small + cone_defs(c, [sid]), sid == 1, 4000):
+                    ue[sid.get_id()] = sid
+                    c.defs.append(sid == 1)
+                    c.notes.append("lemma proven: 4-vector has unit norm (normalisation removed)")
+                    return exact(1)
+                c._not_unit[sid.get_id()] = sid
         return NP.sqrt(s)
 
     def solve(self, A, b):
@@ -302,9 +316,16 @@ class _Linalg:
             return wrap(_np.linalg.solve(unwrap(A), unwrap(b)))
         c = ctx()
         n = A.shape[0]
+        # the solution is a function of (A, b): syntactically equal systems get the same solution symbols
+        kexprs = [simp(zexpr(v)) for v in list(A.reshape(-1)) + list(b.reshape(-1))]
+        key = tuple(e_.get_id() for e_ in kexprs)
+        cache = c.__dict__.setdefault("_linsolve_cache", {})
+        if key in cache:
+            return cache[key][1].copy().view(SA)
         x = _obj((n,), 0.0)
         for i in range(n):
             x[i] = SR(c.fresh_real("lin"))
+        cache[key] = (kexprs, x)
         for i in range(n):
             r = SR(0.0)
             for j in range(n):
